@@ -269,6 +269,45 @@ def concurrent_offer(ctx, count):
         vh.close()
 
 
+def directed_scopes(ctx):
+    """a conftest.py that binds one name twice with different scopes (the later binding is the one pytest injects), and
+    fixtures of the document whose @pytest.fixture(scope=...) line is not the decorator closest to the def: what is offered
+    inside a broader-scoped fixture is judged on every line of the document"""
+    root = ctx.scratch("directed_scopes")
+    ws = gen.WS(root)
+    H = "import pytest\n\n"
+    f2 = lambda n, sc, v: (f'@pytest.fixture(scope="{sc}")' if sc else "@pytest.fixture") + f"\ndef {n}():\n    return {v}\n\n"
+    ws.files = {"conftest.py": H + f2("db", "session", 1) + f2("sess_only", "session", 2) + f2("db", None, 3) + f2("narrow_then_wide", None, 4)
+                               + f2("mod_fx", "module", 5) + f2("narrow_then_wide", "session", 6),
+                "pkg/conftest.py": H + f2("pkg_fx", "package", 7) + f2("pkg_fx", "class", 8),
+                "pkg/test_doc.py": "import functools\n" + H
+                                   + '@pytest.fixture(scope="module")\ndef engine():\n    return 1\n\n'
+                                   + '@pytest.fixture(scope="session")\n@functools.lru_cache\ndef cached_engine():\n    return 1\n\n'
+                                   + '@other.decorator\n@pytest.fixture(scope="package")\n@functools.wraps(engine)\ndef wrapped():\n    return 1\n\n'
+                                   + "@pytest.fixture\ndef plain():\n    return 1\n\ndef test_t():\n    pass\n"}
+    ws.spec = {"directed": "redefinition with another scope; stacked decorators", "depth": 1}
+    materialize(ws)
+    rel = "pkg/test_doc.py"
+    doc = ws.files[rel]
+    model = ws.model()
+    f = ws.abs(rel)
+    srv = LSP(srv_bin(), root, locklog=os.path.join(ctx.scratch_root, "lock_srv.log"))
+    try:
+        srv.initialize()
+        srv.did_open(f, doc)
+        classes = line_classes(doc)
+        lines = doc.split("\n")
+        for l1 in range(1, len(lines) + 1):
+            klass, info = classes.get(l1, ("none", None))
+            txt = lines[l1 - 1]
+            col = len(txt) - len(txt.lstrip()) if klass == "body" else (txt.find("(") + 1 if "(" in txt else len(txt))
+            judge_line(ctx, srv, model, f, doc, l1, col, klass, info, ws.files, "directed_scopes")
+        ctx.nontrivial(("directed_scopes",))
+    finally:
+        srv.shutdown()
+        shutil.rmtree(root, ignore_errors=True)
+
+
 def run(ctx):
     quick = ctx.tier == "quick"
     n = 14 if quick else 500
@@ -279,6 +318,7 @@ def run(ctx):
     if os.environ.get("VERIF_ONLY_PINNED"):
         return
     concurrent_offer(ctx, 300 if quick else 30000)
+    directed_scopes(ctx)
     for i in range(n):
         root = ctx.scratch(f"w{i}")
         ws = gen.gen_workspace(root, ctx.rng, depth=ctx.rng.randint(1, 2), venv=(i % 2 == 0), allow_imports=False,
